@@ -55,8 +55,10 @@ def build_server(ctx, probe, cfg, allresolvers=True, race=False, extra_yml="", m
     for root, _, files in sorted(os.walk(probe_dir)):
         for f in sorted(files):
             h.update(open(os.path.join(root, f), "rb").read())
-    for f in ("universal/universal.go", "universal/runner.go", "universal/gen.go", "gen/main.go"):
-        h.update(open(os.path.join(vf.GO, f), "rb").read())
+    for f in sorted(os.listdir(os.path.join(vf.GO, "universal"))) :
+        if f.endswith(".go"):
+            h.update(open(os.path.join(vf.GO, "universal", f), "rb").read())
+    h.update(open(os.path.join(vf.GO, "gen/main.go"), "rb").read())
     h.update(repr(CONFIGS[cfg]).encode() + extra_yml.encode() + (b"mixed" if mixed else b""))
     if mixed:
         cfg_name = cfg + "_mixed"
